@@ -1,7 +1,9 @@
 /* lacon_h.c -- C18: the norm estimator dlacon_ keeps its loop state in function-static variables between the
  * reverse-communication calls of ONE estimate.  "No hidden state" = a new estimate (entered with kase = 0) does not
  * depend on what those variables held before.  Self-composition: dlacon.c is compiled twice (dlacon_A, dlacon_B);
- * goto-instrument gives the statics of copy A ARBITRARY initial values, copy B starts from the loader's zeros; both are
+ * copy A is compiled with -Dstatic=extern and its seven function statics renamed to vhA_* (same lifetime, same uses, but
+ * the harness can set them: ARBITRARY values, logged, so a counterexample is replayable natively); copy B is compiled
+ * as it stands and starts from the loader's zeros; both are
  * driven through one whole estimate with the SAME arbitrary replies of the caller (x overwritten by any vector at
  * every step).  Every output of every step (kase, x, and finally est, v) must agree.  E2 (Real).
  */
@@ -15,13 +17,35 @@ int vh_log_i; double vh_log_d;
 #ifndef STEPS
 #define STEPS 14     /* 1 + 1 + 2*5 + 2: first step, first product, at most ITMAX = 5 rounds of two products, alternative estimate */
 #endif
+#ifdef SCRIPT
+/* Scripted replies of the caller (n = 2), chosen so that the estimate goes through the main loop: row s is the vector
+ * the caller puts into x after step s.  Replies with index >= FREE_FROM are arbitrary instead.
+ *   SCRIPT 1: one extra Hager round, then a repeated sign vector ends the loop.
+ *   SCRIPT 2: the estimate grows and the sign vector changes in every round: the loop runs to ITMAX = 5 and is cut there.
+ *   SCRIPT 3: cycling test (estimate does not grow) ends the loop in the second round.
+ */
+#if SCRIPT == 1
+static const int vh_script[][2] = {{1,1},{2,1},{3,-1},{1,5},{2,-4},{1,1},{1,1},{1,1},{1,1},{1,1},{1,1},{1,1},{1,1},{1,1}};
+#elif SCRIPT == 2
+static const int vh_script[][2] = {{1,1},{2,1},{3,-1},{1,5},{5,1},{5,1},{7,-1},{1,5},{9,1},{5,1},{1,1},{1,1},{1,1},{1,1}};
+#else
+static const int vh_script[][2] = {{1,1},{2,1},{3,-1},{1,5},{1,1},{9,9},{1,1},{1,1},{1,1},{1,1},{1,1},{1,1},{1,1},{1,1}};
+#endif
+#ifndef FREE_FROM
+#define FREE_FROM 99
+#endif
+#endif
 extern int_t dlacon_A(int_t *, double *, double *, int_t *, double *, int_t *);
 extern int_t dlacon_B(int_t *, double *, double *, int_t *, double *, int_t *);
+
+int_t vhA_iter, vhA_jump, vhA_jlast, vhA_i, vhA_j; double vhA_altsgn, vhA_estold;   /* the statics of copy A */
 
 VH_MAIN
 {
     static double vA[N], xA[N], vB[N], xB[N]; static int_t isA[N], isB[N];
     double estA = 0, estB = 0; int_t kA = 0, kB = 0, n = N; int s, i, done = 0;
+    vhA_iter = vh_int(); vhA_jump = vh_int(); vhA_jlast = vh_int(); vhA_i = vh_int(); vhA_j = vh_int();   /* whatever earlier estimates left */
+    vhA_altsgn = vh_double(); vhA_estold = vh_double();
     for (s = 0; s < STEPS && !done; ++s) {
         dlacon_A(&n, vA, xA, isA, &estA, &kA);
         dlacon_B(&n, vB, xB, isB, &estB, &kB);
@@ -29,7 +53,12 @@ VH_MAIN
         for (i = 0; i < N; ++i) vh_assert(xA[i] == xB[i], "same vector handed to the caller whatever the leftover state");
         if (kA == 0 && kB == 0) done = 1;
         else for (i = 0; i < N; ++i) { double r = vh_double();   /* any reply of the caller */
-#if defined(WITNESS) && defined(WIT_PIN)
+#ifdef SCRIPT
+            if (s < FREE_FROM) r = (double)vh_script[s][i];   /* assigned, not assumed: the symbolic executor then folds the scripted prefix */
+#ifdef WITNESS
+            else r = (double)vh_script[s][i];   /* witness twin: the whole script */
+#endif
+#elif defined(WITNESS) && defined(WIT_PIN)
             vh_assume(r == (double)(i + 1));   /* witness twin only: one concrete run */
 #endif
             xA[i] = r; xB[i] = r; }
